@@ -11,3 +11,5 @@ pub mod remote;
 pub mod remote_actor;
 pub mod dns_stagger;
 pub mod dns_wire;
+pub mod dnssrv;
+pub mod sched;
